@@ -466,7 +466,22 @@ func (st *State) storePtr(p *PtrInfo, v Val) {
 		unsup("store: leaf count mismatch %d vs %d (%v into %v)", len(v.L), n, v.T, root)
 	}
 	if v.P != nil && (v.P.Kind != pkHeap || len(v.P.Path) > 0) && p.Kind != pkCell {
-		unsup("interior or local pointer escapes to the heap")
+		c := st.ctx.contract
+		if c == nil || c.OpaqueInterior == "" || v.P.Kind != pkHeap {
+			unsup("interior or local pointer escapes to the heap")
+		}
+		// opt-in: the address of a field is stored as an opaque handle (an uninterpreted function of the
+		// object, distinct from every allocated object); module code must not read or write the pointee
+		// through the stored copy - listed as an assumption
+		name := "fieldaddr#" + typeKey(v.P.Root)
+		for _, i := range v.P.Path {
+			name += fmt.Sprintf(".%d", i)
+		}
+		f := st.ctx.declareFun(name, []string{SInt}, SInt)
+		h := Term{fmt.Sprintf("(%s %s)", f, v.P.Ref.S), SInt}
+		st.assume(Lt(h, I(-(1 << 41))))
+		st.ctx.note("ASSUMED in %s: the address of a field stored into the heap is an opaque handle (%s)", c.Key, c.OpaqueInterior)
+		v = Val{T: v.T, L: []Term{h}}
 	}
 	switch p.Kind {
 	case pkCell:
